@@ -234,6 +234,9 @@ struct Legacy {
     with_mut: bool,
     /// IntoIterator: listed kinds
     kinds: Vec<usize>,
+    /// struct-level arguments *and* a (redundant) bare `#[attr]` marker on the selected field: the field inherits the
+    /// struct's `forward` / reference kinds (seed C14-k)
+    mark_too: bool,
 }
 
 #[derive(Clone, Debug)]
@@ -296,7 +299,8 @@ fn gen_legacy(d: &mut Dice, tys: &[usize], cap: u8, can_forward: bool, is_iter: 
     let bare = nf == 1 && !at_struct && d.chance(30);
     // `&T` has no DerefMut of its own, so a forwarded DerefMut cannot be asked for there
     let with_mut = d.chance(70) && !(forward && (tys[sel] == 7 || tys[sel] == 15));
-    Some(Legacy { sel, mark, forward, at_struct, bare, with_mut, kinds })
+    let mark_too = at_struct && d.chance(40);
+    Some(Legacy { sel, mark, forward, at_struct, bare, with_mut, kinds, mark_too })
 }
 
 fn gen_types(d: &mut Dice, ty: usize) -> Vec<(String, String, bool)> {
@@ -502,6 +506,8 @@ impl Model {
             field_attrs[l.sel].push(format!("#[{an}({args})]"));
         } else if !l.at_struct && (l.bare || (l.mark && nf > 1)) {
             field_attrs[l.sel].push(format!("#[{an}]"));
+        } else if l.at_struct && l.mark_too {
+            field_attrs[l.sel].push(format!("#[{an}]"));
         } else if l.at_struct && l.mark && nf > 1 {
             unreachable!("struct-level arguments are only combined with the ignore style or a single field");
         }
@@ -670,6 +676,9 @@ fn render(m: &Model) -> GenCase {
     if let Some(l) = &m.deref {
         let (k, fk, t) = (l.sel, f(l.sel), ft(l.sel));
         selected.push(k);
+        if l.mark_too {
+            labels.push("struct_level_args_with_bare_field_marker".into());
+        }
         if l.forward {
             any_forward = true;
             labels.push("deref_forward".into());
@@ -721,6 +730,9 @@ fn render(m: &Model) -> GenCase {
     if let Some(l) = &m.iter {
         let (k, fk, t) = (l.sel, f(l.sel), ft(l.sel));
         selected.push(k);
+        if l.mark_too {
+            labels.push("struct_level_args_with_bare_field_marker".into());
+        }
         let expected: Vec<usize> = if l.kinds.is_empty() { vec![0] } else { l.kinds.clone() };
         let found = discover_iter_kinds(&item);
         // tests/into_iterator.rs (`Numbers3`): "`owned` is not enabled when `ref`/`ref_mut` are enabled without `owned`".
